@@ -9,6 +9,7 @@ CODE_FIXPRED = True
 CODE_FIXLEAVE = True
 CODE_FIXWRAP = True
 CODE_FIXDEAD = True     # stabilize falls back to the nearest live finger / predecessor when its whole successor list has departed
+CODE_FIXADOPT = True    # stabilize adopts its successor's predecessor only once that node has installed a successor list (set to True with the fix: commit)
 
 
 # quick tier: each ring property replays the coverage-goal witnesses closest to it (thorough: every property replays all of them)
@@ -52,6 +53,22 @@ def engine(ck, pid, kinds, n_quick=40, n_thorough=400, gen_kw=None, mc=True):
             if r.error and r.trace_json:
                 sc = ringlib.cex_to_scenario(ringlib.cex_states(r.trace_json), "variant-cex-%s-%s" % (r.error["name"], "fp" if not fp else "fl"))
                 _judge(ck, pid, kinds, binary, [sc], "variant-counterexample")
+        # (A'b) a lookup handed to a live node without successor list (a joiner adopted as successor before it installed its list): with
+        # pessimistic routing ("nosucc") the design as implemented must be free of it, the design before the repair is refuted and its
+        # counterexample replayed
+        nos = dict(lay="Lay5b", init="{1, 2, 4}", joiners="{3}", leavers="{}", maxops=1, opkinds='{"get", "nosucc"}', invs="InvNoNonRetryable")
+        r = ck.tlc("MC_ChordKV", ringlib.mc_cfg(CODE_FIXPRED, CODE_FIXLEAVE, CODE_FIXWRAP, **nos), allow_error=True, timeout=900, workers=4)
+        if r.error and r.trace_json:
+            sc = ringlib.cex_to_scenario(ringlib.cex_states(r.trace_json), "mc-cex-nosucc")
+            if _judge(ck, pid, kinds, binary, [sc], "mc-counterexample") == 0:
+                ck.notes.append("model counterexample (lookup handed to a node without successor list) not reproduced by the real code for this property")
+        if CODE_FIXADOPT:
+            r = ck.tlc("MC_ChordKV", ringlib.mc_cfg(CODE_FIXPRED, CODE_FIXLEAVE, CODE_FIXWRAP, fixadopt=False, **nos), allow_error=True, timeout=900, workers=4, count=False)
+            if r.error and r.trace_json:
+                sc = ringlib.cex_to_scenario(ringlib.cex_states(r.trace_json), "variant-cex-nosucc")
+                _judge(ck, pid, kinds, binary, [sc], "variant-counterexample")
+            else:
+                raise vf.Infra("ChordKV without the adoption guard no longer hands a lookup to a node without successor list: the hazard model is vacuous")
         # (A'') coverage goals: a shortest behaviour through every branch of the membership actions, replayed on the real code
         goals = None if ck.thorough else QUICK_GOALS.get(pid)
         wit = ringlib.goal_witnesses(ck, CODE_FIXPRED, CODE_FIXLEAVE, CODE_FIXWRAP, goals=goals)
@@ -68,7 +85,9 @@ def engine(ck, pid, kinds, n_quick=40, n_thorough=400, gen_kw=None, mc=True):
     for i in range(n):
         kw = dict(gen_kw or {})
         kw.setdefault("kv_gates", i % 2 == 0)      # every other scenario parks client operations at the kv:local gate
-        kw.setdefault("ns_gates", i % 2 == 1)      # the others park leaves before their lock transitions (own and successor's)
+        # the others park leaves before their lock transitions (own and successor's): before the lock word is loaded, or (every second of
+        # them) between its load and the compare-and-swap
+        kw.setdefault("ns_gates", "loaded" if i % 4 == 3 else i % 2 == 1)
         if ck.thorough and i % 3 == 0:
             kw.update(n_nodes=7, n_init=4, n_join=2, n_leave=2, n_keys=4, n_ops=8)
         elif i % 4 == 1:
@@ -99,6 +118,8 @@ def _judge(ck, pid, kinds, binary, scenarios, origin, base=0):
     ck.traces += len(scenarios)
     ck.extra["trace_lines_validated"] = ck.extra.get("trace_lines_validated", 0) + len(tr.lines)
     ck.extra["quiescent_judgements"] = ck.extra.get("quiescent_judgements", 0) + len(quiet)
+    ck.extra["lock_steps_resumed_after_the_load_with_the_node_locked_in_between"] = ck.extra.get(
+        "lock_steps_resumed_after_the_load_with_the_node_locked_in_between", 0) + sum(1 for l in tr.lines if l.get("early"))
     if scenarios and len(ck.samples) < 3:
         sc = scenarios[0]
         ck.sample({"origin": origin, "scenario": sc["name"], "layout": sc["layout"], "first_steps": sc["steps"][:12],
